@@ -381,6 +381,11 @@ func (set *Set) add(hosts ...*Host) {
 	// only the hosts marked as healthy are usable.
 	healthyHosts := make([]*Host, 0, len(hosts))
 	for _, host := range hosts {
+		// NOTE: the same address could be given twice, only the last one is
+		// a member then (the earlier one is already dropped above).
+		if set.all[host.Addr] != host {
+			continue
+		}
 		if host.IsHealthy() {
 			healthyHosts = append(healthyHosts, host)
 		}
